@@ -72,12 +72,15 @@ def stepJson (cfg : Cfg) (st : St) (j : Json) : St × Json :=
     (st', jobj [("node", node), ("hit", jbool hit), ("val", jopt jnat v)])
   | "sig" =>
     let (v, st') := sigq cfg C st (nat j "pos") (bool j "matched") (str j "k")
-    -- a hit leaves the number of entries unchanged although the key is cacheable
-    let cacheable := match st.cur with
-      | some sc => sc.key.isSome && (bool j "matched" || cfg.sigCachesUnmatched)
+    let hit : Bool := match st.cur with
+      | some sc =>
+        let m : Option Nat := if bool j "matched" then some (if cfg.sigKeyFresh then st.nextMatch else 0) else none
+        sc.key.isSome && (bool j "matched" || cfg.sigCachesUnmatched) &&
+          (match st.sig.get? (sc.key, m, nat j "pos") with
+           | some (e, _) => decide (e > st.clock)
+           | none => false)
       | none => false
-    (st', jobj [("val", jopt jnat v), ("entries", jnat st'.sig.length),
-                ("hit", jbool (cacheable && st'.sig.length == st.sig.length))])
+    (st', jobj [("val", jopt jnat v), ("entries", jnat st'.sig.length), ("hit", jbool hit)])
   | "tick" => ({ st with clock := st.clock + nat j "dt" }, jobj [])
   | "gc" =>
     let st' := gc cfg st
